@@ -259,8 +259,10 @@ fn lattice(run: &mut Run, dicts: &[DictCase], tier: Tier) {
                 a.extra[3] += 1;
             }
             a.nontrivial += 1;
-            if let Ok(out) = crate_decode(&mut dec, &frame, None, 4096) {
-                a.bad("lattice:beyond_accepted".into(), format!("offset {off} reaches one byte beyond dictionary ({dl}) + output ({}) and was accepted ({} bytes delivered)", p + ll, out.len()), rp);
+            match crate_decode(&mut dec, &frame, None, 4096) {
+                Ok(out) => a.bad("lattice:beyond_accepted".into(), format!("offset {off} reaches one byte beyond dictionary ({dl}) + output ({}) and was accepted ({} bytes delivered)", p + ll, out.len()), rp),
+                Err(e) if e.starts_with("panic:") => a.bad("lattice:beyond_panics".into(), format!("offset {off} reaches one byte beyond dictionary ({dl}) + output ({}): {e}", p + ll), rp),
+                Err(_) => {}
             }
         }
     });
